@@ -253,6 +253,8 @@ int parsec_vpmap_init_from_hardware_affinity(int nbthreads)
                 HWLOC_SET(parsec_vpmap[vp_id].threads[th_id + ht_id].cpuset, core_id);
                 parsec_vpmap[vp_id].threads[th_id + ht_id].ht = ht_id;
                 if( 0 == --nbthreads ) {
+                    /* the last VP is truncated: do not count the threads it does not get */
+                    parsec_nb_total_threads -= nbthreadspervp - (th_id + ht_id + 1);
                     parsec_vpmap[vp_id].nbthreads = th_id + ht_id + 1;
                     parsec_nbvp = vp_id + 1;  /* Update the number of valid VP */
                     goto complete_and_return;
